@@ -1,5 +1,9 @@
 CONSTANTS MaxLen = 4
           MaxLenX = 3
+          Kinds2 = {"req", "opt", "kwreq", "kwopt"}
+          Kinds3 = {"req", "opt", "kwreq", "kwopt"}
+          Kinds4 = {"req", "opt"}
+          MaxE4 = 4
 INIT Init
 NEXT Next
 INVARIANT DedupLaw
@@ -14,6 +18,7 @@ INVARIANT SubsetLaws
 INVARIANT PlusLaw
 INVARIANT SelectLaw
 INVARIANT RelabelLaw
+INVARIANT BlanketLaw
 INVARIANT DomainOk
 INVARIANT EvaluatedAreFinal
 INVARIANT Confluence
@@ -21,4 +26,5 @@ INVARIANT StuckOnlyIfCyclic
 INVARIANT DoneOnlyIfAcyclic
 INVARIANT CyclicNeverDone
 INVARIANT OthersUntouched
+INVARIANT ArgumentsByName
 INVARIANT LayeredIsLaw
